@@ -50,17 +50,25 @@ theorem hasNode_false (c : Ctx) (k : String) (h : k ∉ c.nodes.map (·.1)) : c.
 
 variable {tab : List Entry} {idxTab : List (String × List Idx)} {tbl : List (String × Arity)}
 
+/-- the attributes `_parse_block_atom` stores for row `k+1` (numbers through `int()`) -/
+def nodeAttrs (k : Nat) (ty ri rn an cg : String) : Attrs :=
+  [("atomname", JVal.str an), ("atype", JVal.str ty), ("resname", JVal.str rn),
+   ("resid", JVal.int ((pyInt? ri).getD 0)), ("charge_group", JVal.int ((pyInt? cg).getD 0)),
+   ("index", JVal.int ((k + 1 : Nat) : Int))]
+
 /-- `_block`: the `[ moleculetype ]` line -/
 theorem handleX_mol (F : TabFacts tab idxTab tbl) (c : RCtx) (line t a b : String)
     (hdec : (decodeMeta line).2 = t) (hsplit : C13.splitWs t = [a, b]) (hint : (pyInt? b).isSome = true) :
     handleX idxTab tab ["moleculetype"] line c
-      = some { c with base := { c.base with name := some a }, nrexcl := some b } := by
+      = some { c with base := { c.base with name := some a, nrexcl := some ((pyInt? b).getD 0) },
+                      nrexcl := some b } := by
   obtain ⟨e, he, hm⟩ := F.mol
   obtain ⟨v, hv⟩ := Option.isSome_iff_exists.mp hint
-  have h1 : itpHandle idxTab tab ["moleculetype"] line c.base = some { c.base with name := some a } := by
+  have h1 : itpHandle idxTab tab ["moleculetype"] line c.base
+      = some { c.base with name := some a, nrexcl := some ((pyInt? b).getD 0) } := by
     unfold itpHandle
     rw [he]
-    simp only [hm, if_true, hdec, nameLine2, hsplit, hv, Option.map_some]
+    simp only [hm, if_true, hdec, nameLine2, hsplit, hv, Option.map_some, Option.getD_some]
   unfold handleX
   rw [h1]
   simp only [he, hm, if_true, hdec, hsplit]
@@ -76,7 +84,7 @@ theorem handleX_atom (F : TabFacts tab idxTab tbl) (c : RCtx) (line t : String) 
     (hextra : (extra.take 2).all pyFloatOk = true) :
     handleX idxTab tab ["moleculetype", "atoms"] line c
       = some { c with
-          base := { c.base with nodes := c.base.nodes ++ [(toString k, [("atomname", JVal.str an)])] },
+          base := { c.base with nodes := c.base.nodes ++ [(toString k, nodeAttrs k ty ri rn an cg)] },
           rows := c.rows ++ [toString (k + 1) :: ty :: ri :: rn :: an :: cg :: extra] } := by
   obtain ⟨e, he, hm⟩ := F.atoms
   obtain ⟨v1, hv1⟩ := Option.isSome_iff_exists.mp hri
@@ -89,13 +97,13 @@ theorem handleX_atom (F : TabFacts tab idxTab tbl) (c : RCtx) (line t : String) 
     hasNode_false _ _ (by rw [hk]; exact keysUpTo_not_mem k)
   have hlt : ¬ (((k + 1 : Nat) : Int) < 1) := by omega
   have h1 : itpHandle idxTab tab ["moleculetype", "atoms"] line c.base
-      = some { c.base with nodes := c.base.nodes ++ [(toString k, [("atomname", JVal.str an)])] } := by
+      = some { c.base with nodes := c.base.nodes ++ [(toString k, nodeAttrs k ty ri rn an cg)] } := by
     unfold itpHandle
     rw [he]
     simp only [hm, hne, if_false, if_true, hdec]
     unfold itpAtomLine
     simp only [htok, Option.bind_eq_bind, Option.bind_some, pyInt_toString, hlt, if_false, hkey, hnode,
-      Bool.false_eq_true, hv1, hv2, hextra, Bool.not_true, Option.pure_def]
+      Bool.false_eq_true, hv1, hv2, hextra, Bool.not_true, Option.pure_def, nodeAttrs, Option.getD_some]
     unfold Ctx.setNode
     rw [dictSet_new _ _ _ (by rw [hk]; exact keysUpTo_not_mem k)]
   unfold handleX
